@@ -596,7 +596,6 @@ func (s *stepper) Step(i int, st replay.Step) (replay.Obs, error) {
 		switch {
 		case cancel:
 			schema, rows = arrow.NewSchema(nil, nil), 0
-			kv = append(kv, vgirpc.MetaCancel, "true")
 		case isProd(m):
 			schema, rows = arrow.NewSchema(nil, nil), 0
 		default:
@@ -610,6 +609,18 @@ func (s *stepper) Step(i int, st replay.Step) (replay.Obs, error) {
 		}
 		tok := []string{vgirpc.MetaStreamState, s.cursor}
 		ctk := []string{vgirpc.MetaCallState, s.ctok}
+		if cancel {
+			// metadata is a list: the cancel flag may come before, between or after the tokens
+			cf := []string{vgirpc.MetaCancel, "true"}
+			switch s.rng.Intn(3) {
+			case 0:
+				tok = append(cf, tok...)
+			case 1:
+				tok = append(tok, cf...)
+			default:
+				ctk = append(ctk, cf...)
+			}
+		}
 		switch pos {
 		case 0:
 			kv = append(append(append(kv, um...), tok...), ctk...)
